@@ -56,19 +56,26 @@ DecContractBroken(d, k, c) == Len(k) # d.key \/ (d.ct # Unlimited /\ Len(c) # d.
 CoreIdx(e)   == 1..Len(e.core)
 RngOutputs(e) == {e.rng[j] : j \in 1..Len(e.rng)}
 
+(* a declaration whose two lengths contradict each other (no message of the declared length has a ciphertext of the     *)
+(* declared length) may be refused by the constructor, or later by Encrypt - the property does not say where             *)
+DeclConsistent(d) == d.msg = Unlimited \/ d.ct = Unlimited \/ d.ct = CtLen(d.msg)
+CtFits(d, m) == d.ct = Unlimited \/ d.ct = CtLen(Len(m))
+
+(* a key length that is not permitted: refused by the constructor, or at the latest by Encrypt (see JudgeEnc) *)
 JudgeCtor(e) ==
-    IF e.decl.key \notin KeyLens
-    THEN (IF e.out = "ValueError" THEN "ok" ELSE "Contract:key-length-not-permitted-accepted")
-    ELSE IF DeclValid(e.decl) /\ e.out # "ok" THEN "Ctor:valid-declaration-refused"
+    IF e.decl.key \notin KeyLens THEN "ok"
+    ELSE IF DeclValid(e.decl) /\ DeclConsistent(e.decl) /\ e.out # "ok" THEN "Ctor:valid-declaration-refused"
     ELSE "ok"
 
 (* Encrypt, Layer A - exactly what the property states: length contracts are enforced, a valid call returns bytes, *)
 (* the ciphertext length depends only on the message length, and no ciphertext is ever produced twice (usedCt = the *)
 (* ciphertexts of the encryptions seen before in this trace, which repeat (k, m) pairs on purpose).                *)
 JudgeEnc(e, usedIV, usedCt) ==
-    IF EncContractBroken(e.decl, e.k, e.m)
+    IF e.decl.key \notin KeyLens
+    THEN (IF e.out = "ok" THEN "Contract:key-length-not-permitted-accepted" ELSE "ok")
+    ELSE IF EncContractBroken(e.decl, e.k, e.m)
     THEN (IF e.out = "ValueError" THEN "ok" ELSE "Contract:encrypt-accepted-wrong-length")
-    ELSE IF e.out # "ok" THEN "Encrypt:refused-valid-input"
+    ELSE IF e.out # "ok" THEN (IF CtFits(e.decl, e.m) THEN "Encrypt:refused-valid-input" ELSE "ok")
     ELSE IF ~IsBytes(e.ct) THEN "Encrypt:result-not-bytes"
     ELSE IF Len(e.ct) # CtLen(Len(e.m)) THEN "Encrypt:length-formula"
     ELSE IF e.ct \in usedCt THEN "Encrypt:ciphertext-repeated"
